@@ -278,6 +278,7 @@ const (
 	c03SReturn
 	c03SCall
 	c03SDeclZero // var x T   (composite, immediately followed by stores); Mini: SDecl x T (ELit 0)
+	c03SCopy     // copy(v[lo:hi], sv): min(hi-lo, len(sv)) elements; Mini: SStore v tw lo*ew count*ew (EVar sv)
 )
 
 type c03Stmt struct {
@@ -297,6 +298,9 @@ type c03Stmt struct {
 	xs     []*c03Var
 	xts    []*c03Ty
 	f      int
+	sv     *c03Var // copy: source array
+	st     *c03Ty
+	hi     int // copy: v[lo:hi]
 }
 
 func (s *c03Stmt) clone() *c03Stmt {
@@ -326,6 +330,22 @@ func (s *c03Stmt) storeOffW() (int, int) {
 	return s.t.fieldOff(s.k), s.t.fields[s.k].width()
 }
 
+func (s *c03Stmt) storeOffW2() (int, int) {
+	if s.tag == c03SCopy {
+		return s.copyOffW()
+	}
+	return s.storeOffW()
+}
+
+func (s *c03Stmt) copyOffW() (int, int) {
+	cnt := s.hi - s.lo
+	if s.st.n < cnt {
+		cnt = s.st.n
+	}
+	ew := s.t.elem.width()
+	return s.lo * ew, cnt * ew
+}
+
 func c03Indent(n int) string { return strings.Repeat("\t", n) }
 
 func (s *c03Stmt) src(sb *strings.Builder, ind int) {
@@ -341,6 +361,12 @@ func (s *c03Stmt) src(sb *strings.Builder, ind int) {
 		fmt.Fprintf(sb, "%svar %s %s\n", in, s.v.name, s.t.src())
 	case c03SAssign:
 		fmt.Fprintf(sb, "%s%s = %s\n", in, s.v.name, s.e.src())
+	case c03SCopy:
+		if s.lo == 0 && s.hi == s.t.n {
+			fmt.Fprintf(sb, "%scopy(%s, %s)\n", in, s.v.name, s.sv.name)
+		} else {
+			fmt.Fprintf(sb, "%scopy(%s[%d:%d], %s)\n", in, s.v.name, s.lo, s.hi, s.sv.name)
+		}
 	case c03SStore:
 		if s.t.kind == 3 {
 			idx := fmt.Sprint(s.k)
@@ -410,6 +436,9 @@ func (s *c03Stmt) sx() SX {
 	case c03SStore:
 		off, w := s.storeOffW()
 		return L(I(2), I(s.v.id), I(s.t.width()), I(off), I(w), s.e.sx())
+	case c03SCopy:
+		off, w := s.copyOffW()
+		return L(I(2), I(s.v.id), I(s.t.width()), I(off), I(w), L(I(0), I(s.sv.id)))
 	case c03SIf:
 		return L(I(3), s.c.sx(), c03BlockSX(s.a), c03BlockSX(s.b))
 	case c03SFor:
@@ -666,11 +695,16 @@ func (it *c03Interp) exec(b []*c03Stmt, en c03Env) (c03Env, []*big.Int) {
 			en = append(en, c03Binding{s.v, big.NewInt(0)})
 		case c03SAssign:
 			en.update(s.v, c03Norm(s.t.width(), it.eval(s.e, en)))
-		case c03SStore:
-			off, w := s.storeOffW()
+		case c03SStore, c03SCopy:
+			off, w := s.storeOffW2()
 			tw := s.t.width()
 			old := c03Norm(tw, en.lookup(s.v))
-			val := c03Norm(w, it.eval(s.e, en))
+			var val *big.Int
+			if s.tag == c03SCopy {
+				val = c03Norm(w, en.lookup(s.sv))
+			} else {
+				val = c03Norm(w, it.eval(s.e, en))
+			}
 			hole := new(big.Int).Lsh(c03Mask(w), uint(off))
 			r := new(big.Int).AndNot(old, hole)
 			r.Or(r, new(big.Int).Lsh(val, uint(off)))
@@ -917,10 +951,19 @@ func (ck *c03Checker) block(b []*c03Stmt) bool {
 			if !ok || ck.sc.cst[i] || !ck.sc.tys[i].equal(t) || !t.equal(s.t) || !d {
 				ck.fail()
 			}
+		case c03SCopy:
+			i, ok := ck.sc.find(s.v)
+			j, ok2 := ck.sc.find(s.sv)
+			if !ok || !ok2 || s.v.id == s.sv.id || !ck.sc.tys[i].equal(s.t) || !ck.sc.tys[j].equal(s.st) ||
+				s.t.kind != 3 || s.st.kind != 3 || !s.t.elem.equal(s.st.elem) ||
+				s.lo < 0 || s.lo >= s.hi || s.hi > s.t.n {
+				ck.fail()
+			}
 		case c03SStore:
 			t, d := ck.expr(s.e)
 			i, ok := ck.sc.find(s.v)
-			if !ok || !ck.sc.tys[i].equal(s.t) || !d {
+			// a constant (literal, T(loop counter)) may be stored: no operator is folded
+			if !ok || !ck.sc.tys[i].equal(s.t) || !(d || c03IsConstExpr(s.e)) {
 				ck.fail()
 				break
 			}
@@ -1138,11 +1181,19 @@ func (fw *c03FeatWalker) block(b []*c03Stmt, inLoop bool) {
 			if s.tag == c03SDecl && s.short && fw.loopCnt >= 2 {
 				fw.feat["short-declaration-in-unrolled-loop-body"] = true
 			}
+		case c03SCopy:
+			fw.feat["copy"] = true
+			if s.st.n > s.hi-s.lo {
+				fw.feat["copy-source-longer-than-destination-range"] = true
+			}
 		case c03SStore:
 			if s.t.kind == 3 {
 				fw.feat["array-store"] = true
 			} else {
 				fw.feat["struct-store"] = true
+			}
+			if c03IsConstExpr(s.e) {
+				fw.feat["composite-store-of-constant"] = true
 			}
 		case c03SIf:
 			fw.feat["if"] = true
@@ -1221,7 +1272,7 @@ func c03NestedAssigned(b []*c03Stmt) map[int]bool {
 	var all func(b []*c03Stmt)
 	all = func(b []*c03Stmt) {
 		for _, s := range b {
-			if s.tag == c03SAssign || s.tag == c03SStore {
+			if s.tag == c03SAssign || s.tag == c03SStore || s.tag == c03SCopy {
 				out[s.v.id] = true
 			}
 			all(s.a)
